@@ -462,9 +462,10 @@ class Lexer:
             else:
                 pattern.append(self._advance())
 
-        # Read flags
+        # Read flags: every identifier character belongs to the literal (an
+        # invalid flag is rejected when the RegExp is created)
         flags = []
-        while self._current() and self._current() in "gimsuy":
+        while self._current() and (self._current().isalnum() or self._current() in "_$"):
             flags.append(self._advance())
 
         return Token(TokenType.REGEX, ("".join(pattern), "".join(flags)), line, column)
